@@ -48,7 +48,15 @@ def one_step_law(k, p, targets=False):
     return p_enter, slots, ranges, None
 
 
-def exact_inclusion(k, p, n, limit=4000):
+class Obs(dict):
+    """an observation that compares equal to every other one with the same content (binary / categorical / constant features) but
+    carries its arrival number"""
+    def __init__(self, content, tag):
+        super().__init__(content)
+        self.tag = tag
+
+
+def exact_inclusion(k, p, n, limit=4000, pool=None):
     """exact P(arrival t retained after n arrivals) for the real class, t = 0..n-1: every outcome of every draw the class
     makes is enumerated with weight 1/range for index draws; a real draw has the two outcomes `<= p` (weight p) and `> p`
     (weight 1-p), justified by the one-step law probe. Returns None when the outcome tree exceeds `limit`."""
@@ -59,6 +67,11 @@ def exact_inclusion(k, p, n, limit=4000):
 
     def scenario(d):
         st = S.make_storage("geom", k, False, p)
+        if pool:
+            # only `pool` distinct contents: equal observations arrive again and again; which ARRIVALS are held is read off the tags
+            for j in range(n):
+                st.update(Obs({"v": j % pool}, j), None)
+            return [x.tag for x in st.get_data()[0]]
         for j in range(n):
             st.update({"id": j}, None)
         return S.contents(st)[0]
@@ -117,9 +130,9 @@ def run(tier="quick", seed=0, replay=None):
                               {"k": k, "p": str(pe)})
                 continue
             # (b) exact inclusion probabilities
-            for n in range(k, k + extra + 1):
+            for n, pool in [(n, None) for n in range(k, k + extra + 1)] + [(n, pl) for n in range(k + 1, k + extra + 1) for pl in (1, 2) if k >= 2]:
                 try:
-                    probs, total = exact_inclusion(k, p, n)
+                    probs, total = exact_inclusion(k, p, n, pool=pool)
                 except Exception as ex:
                     chk.violation("exception", f"GeometricReservoirStorage(size={k}, constant_probability={pe}) raised {core.err_kind(ex)}: {ex} on a stream of {n}",
                                   {"k": k, "p": str(pe), "n": n})
@@ -127,8 +140,10 @@ def run(tier="quick", seed=0, replay=None):
                 if probs is None:
                     chk.stat("enumeration_too_large_skipped")
                     continue
-                chk.case({"exact-distribution": True, "k": k, "p": str(pe), "n": n,
+                chk.case({"exact-distribution": True, "k": k, "p": str(pe), "n": n, "distinct_contents": pool,
                           "P(retained)": [str(x) for x in probs]}, nontrivial=n > k)
+                if pool:
+                    chk.stat("exact_distributions_with_equal_observations")
                 chk.stat("exact_distributions")
                 if total != 1:
                     chk.tie_failure("enumeration", f"script weights sum to {total}")
@@ -136,8 +151,8 @@ def run(tier="quick", seed=0, replay=None):
                     want = law(k, pe, n, t)
                     if probs[t] != want:
                         chk.violation("inclusion-law",
-                                      f"size {k}, p={pe}, after {n} observations arrival {t + 1} is retained with probability "
-                                      f"{probs[t]} instead of {want}", {"k": k, "p": str(pe), "n": n, "t": t + 1,
+                                      f"size {k}, p={pe}, after {n} observations{' with only ' + str(pool) + ' distinct contents' if pool else ''} arrival {t + 1} is retained with probability "
+                                      f"{probs[t]} instead of {want}", {"k": k, "p": str(pe), "n": n, "t": t + 1, "distinct_contents": pool,
                                                                         "observed": str(probs[t]), "expected": str(want)})
                         break
     # (c) translation validation on random scripts (shared with C07)
